@@ -53,6 +53,42 @@ CLAUSES = [
     ("statistics may come from another dataset (materialize(col_stats=), fitted converter)",
      ["sibling-cell:*", "sibling-*-raises:*"], ["sibling"]),
 ]
+# Every raise / assert / special-case branch / dtype cast of the anchored code that C01 reaches (mapper.py, and the
+# parts of dataset.py / stats.py materialize() goes through), the generator kind that reaches it and the oracle key
+# that notices if it is removed, loosened or replaced by a default.  (Dataset-level guards: harness/c02.py.)
+ERROR_PATHS = [
+    # mapper.py -- casts
+    ("NumericalTensorMapper: ser.values.astype(default dtype) + from_numpy (a COPY, any float/int/nullable backing, "
+     "any memory layout)", "frame/family/large with num_dtype x layout", ["cell:numerical", "y-cell:numerical",
+                                                                        "materialize-raises:*", "aliases-dataframe"]),
+    ("CategoricalTensorMapper: keys .astype(object), reset_index, merge; index[isnan] = -1; .to(long)",
+     "frame (str/int categories, missing cells), sibling (int64/float64/object)", ["cell:categorical", "sibling-cell:*"]),
+    ("MultiCategoricalTensorMapper: dtype gate ValueError (non object/str dtype)", "malformed float64-all-nan-multicat",
+     ["guard-not-raised:float64-all-nan-multicat"]),
+    ("split_by_sep: assert sep is not None / assert sep is None / ValueError for a non-str non-iterable cell",
+     "malformed str-without-sep / list-with-sep / multicat-number-cell", ["guard-not-raised:*"]),
+    ("split_by_sep: missing -> {-1}; blank -> set(); strip; set()", "frame + vary", ["cell:multicategorical"]),
+    ("multicat: index.astype(int64), value_counts/reindex/cumsum offsets", "frame (dup labels, empty / missing cells)",
+     ["cell:multicategorical", "materialize-raises:*"]),
+    ("NumericalSequenceTensorMapper.get_sequence_length: ValueError for a non-list cell", "malformed seq-string-cell",
+     ["guard-not-raised:seq-string-cell"]),
+    ("sequence: ser[offset != 0], values.astype(float32)", "frame (empty / missing / NaN-holding sequences)",
+     ["cell:sequence_numerical"]),
+    ("TimestampTensorMapper: to_datetime(errors='coerce'), month-1 / day-1, nan_to_num(-1).to(long)",
+     "frame ('garbage' cells, format matching no / one cell, datetime64 + configured format), calendar",
+     ["cell:timestamp", "calendar-components", "direct-mapper:timestamp"]),
+    ("EmbeddingTensorMapper: np.stack(...).astype (raises on ragged / missing vectors: numpy's own check, no guard "
+     "of the library -> nothing demanded)", "frame/family/large; malformed ragged-embedding, missing-embedding-cell",
+     ["cell:embedding", "cell:text_embedded", "cell:image_embedded"]),
+    ("TextTokenizationTensorMapper asserts on tensor ranks; the backward() NotImplementedErrors", "not C01 (C16 / out of scope)", []),
+    # stats.py / dataset.py on the materialize() path
+    ("compute_col_stats: TypeError 'Numerical series contains invalid entries' (object column with strings)",
+     "malformed numerical-object-strings", ["guard-not-raised:numerical-object-strings"]),
+    ("compute_col_stats: to_datetime(errors='coerce'); all-null -> default statistics", "frame (all-missing columns, "
+     "format-matches-none)", ["materialize-raises:*"]),
+    ("materialize(col_stats=...): the two asserts on the supplied statistics; path= cache branch",
+     "sibling; forms.path", ["sibling-*-raises:*", "cache-reload"]),
+]
 # Public signature the property speaks about, and where each parameter form is drawn (histogram in stats()['forms'],
 # fail-closed in sanity()):
 #   Dataset(df, col_to_stype, target_col, split_col, col_to_sep, col_to_text_embedder_cfg, col_to_text_tokenizer_cfg,
@@ -197,13 +233,16 @@ def calendar_sweep(rng, chunk=500):
     return out
 
 
-def gen_malformed(rng):
+MALFORMED_KINDS = ["str-without-sep", "list-with-sep", "ragged-embedding", "float64-all-nan-multicat",
+                   "missing-embedding-cell", "multicat-number-cell", "seq-string-cell", "numerical-object-strings"]
+
+
+def gen_malformed(rng, kind=None):
     """Low-rate stream OUTSIDE the property's quantifier: a column that does not fit its configuration
     (string cells without a separator, list cells with one, vectors of different widths).  Nothing is
     demanded of the implementation here (the oracle is silent); the correspondence checks that the model
     predicts the raise (theorems multicategorical_ill_typed_raises / np.stack)."""
-    kind = rng.pick(["str-without-sep", "list-with-sep", "ragged-embedding", "float64-all-nan-multicat",
-                     "missing-embedding-cell"])
+    kind = kind or rng.pick(MALFORMED_KINDS)
     n = rng.randint(2, 4)
     good = G.gen_col(rng, "alpha", "numerical", n, 0.2)
     if kind == "ragged-embedding":
@@ -212,6 +251,15 @@ def gen_malformed(rng):
     elif kind == "missing-embedding-cell":
         bad = {"name": "beta", "stype": "embedding", "dtype": "object", "sep": None, "fmt": None, "width": 2,
                "cells": [[1.0, 2.0]] + [None] + [[0.5, 0.25] for _ in range(n - 2)]}
+    elif kind == "multicat-number-cell":
+        bad = {"name": "beta", "stype": "multicategorical", "dtype": "object", "fmt": None, "width": None,
+               "nan_kind": "none", "sep": "|", "cells": ["a|b"] + [5] * (n - 1)}
+    elif kind == "seq-string-cell":
+        bad = {"name": "beta", "stype": "sequence_numerical", "dtype": "object", "fmt": None, "width": None, "sep": None,
+               "nan_kind": "none", "cells": [[1.0, 2.0]] + ["abc"] * (n - 1)}
+    elif kind == "numerical-object-strings":
+        bad = {"name": "beta", "stype": "numerical", "dtype": "object", "fmt": None, "width": None, "sep": None,
+               "cells": [1.5] + ["x"] * (n - 1)}
     elif kind == "float64-all-nan-multicat":
         bad = {"name": "beta", "stype": "multicategorical", "dtype": "float64", "fmt": None, "width": None,
                "nan_kind": "nan", "sep": rng.pick([None, ","]), "cells": [None] * n}
@@ -299,6 +347,30 @@ def boundary(case, rng):
                 col["cells"] = [c if i == keep else None for i, c in enumerate(col["cells"])]
                 col["boundary"] = "all-missing-but-one"
     return case
+
+
+def force_boundaries(cases):
+    """the low-rate boundaries of `boundary` are guaranteed: the first eligible columns get them if chance did not"""
+    have = {c.get("boundary") for case in cases if "cols" in case for c in case["cols"]}
+    want = [b for b in ("format-matches-one", "format-matches-none", "all-missing-but-one") if b not in have]
+    for case in cases:
+        if not want:
+            break
+        if case.get("kind") or case.get("malformed") or case.get("large") or case.get("n", 0) < 2:
+            continue
+        for col in case["cols"]:
+            if not want or col["name"] == case["target"] or col.get("boundary"):
+                continue
+            live = [i for i, c in enumerate(col["cells"]) if c is not None and c != "garbage"]
+            b = want[0]
+            if b.startswith("format") and col["stype"] == "timestamp" and col["fmt"] not in (None, "datetime64") and live:
+                keep = live[0] if b == "format-matches-one" else None
+                col["cells"] = [c if i == keep else "garbage" for i, c in enumerate(col["cells"])]
+                col["boundary"] = want.pop(0)
+            elif b == "all-missing-but-one" and col["stype"] in ("numerical", "categorical", "sequence_numerical") and live:
+                col["cells"] = [c if i == live[0] else None for i, c in enumerate(col["cells"])]
+                col["boundary"] = want.pop(0)
+    return cases
 
 
 INT_DTYPES = ["int64", "float64", "object"]
@@ -413,15 +485,19 @@ def oracle_sibling(case, obs):
 
 def with_forms(case, rng):
     case["forms"] = M.draw_forms(rng, case)
+    for col in case["cols"]:
+        if col["stype"] == "numerical":
+            M.draw_num_backing(rng, col)            # float64/32/16, int64/32, nullable Float64/Float32/Int64
+    case["layout"] = rng.pick([None, None] + M.RESTRIDES)      # memory layout of the (equal) DataFrame
     return case
 
 
 def generate(rng, tier):
     n = 420 if tier == "quick" else 6000
-    cases = [with_forms(boundary(vary(unlabel(G.gen_frame(rng, stypes=STYPES, target_missing=0.3), rng), rng), rng), rng)
-             for _ in range(n)]
+    cases = [boundary(vary(unlabel(G.gen_frame(rng, stypes=STYPES, target_missing=0.3), rng), rng), rng) for _ in range(n)]
+    cases = [with_forms(c, rng) for c in force_boundaries(cases)]
     cases += [with_forms(gen_large(rng, r), rng) for r in (LARGE_ROWS if tier == "quick" else LARGE_ROWS * 4)]
-    cases += [gen_malformed(rng) for _ in range(n // 40)]
+    cases += [gen_malformed(rng, MALFORMED_KINDS[i % len(MALFORMED_KINDS)]) for i in range(max(n // 16, 16))]
     cases += [gen_sibling(rng) for _ in range(n // 10)]
     cases += [with_forms(gen_family(rng), rng) for _ in range(n // 8)]
     cases += [gen_calendar(rng) for _ in range(25 if tier == "quick" else 400)]
@@ -443,14 +519,18 @@ def malformed_df(case):
     """frames dfgen cannot build: a float64 all-NaN multicategorical column, a None cell in an embedding column"""
     import numpy as np
     import pandas as pd
-    if case["malformed"] not in ("float64-all-nan-multicat", "missing-embedding-cell"):
+    custom = ("float64-all-nan-multicat", "missing-embedding-cell", "multicat-number-cell", "seq-string-cell",
+              "numerical-object-strings")
+    if case["malformed"] not in custom:
         return None
     good, bad = case["cols"]
     data = {good["name"]: G.build_series(good)}
     if case["malformed"] == "float64-all-nan-multicat":
         data[bad["name"]] = pd.Series([np.nan] * case["n"], dtype="float64")
-    else:
+    elif case["malformed"] == "missing-embedding-cell":
         data[bad["name"]] = pd.Series([None if c is None else list(c) for c in bad["cells"]], dtype=object)
+    else:
+        data[bad["name"]] = pd.Series(list(bad["cells"]), dtype=object)
     df = pd.DataFrame(data)
     labels = G.index_labels(case["index"], case["n"])
     if labels is not None:
@@ -470,7 +550,10 @@ def run(case):
     used, reloaded = {}, None
     try:
         df = malformed_df(case) if case.get("malformed") else None
+        if df is None and not case.get("malformed"):
+            df = M.restride(M.build_df(case), case.get("layout"))
         ds, stubs, used = M.make_dataset(case, df=df, forms=forms)
+        used["layout"] = case.get("layout") or "plain"
         # the black box of the timestamp pipeline, recorded for the correspondence
         parsed = {c["name"]: M.parse_timestamps(ds.df, c) for c in case["cols"] if c["stype"] == "timestamp"}
         dev = M.device_arg(forms.get("device"))
@@ -516,6 +599,10 @@ def run(case):
            "direct": direct_mappers(case, ds, forms)}
     if reloaded is not None:
         out["reloaded"] = reloaded
+    try:
+        out["aliasing"] = M.aliasing_probe(ds, G.read_tf)       # LAST: it edits the frame and the tensors
+    except Exception as ex:
+        out["aliasing"] = [f"aliasing probe crashed: {C.exc_name(ex)}: {ex}"]
     return out
 
 
@@ -562,6 +649,8 @@ def direct_mappers(case, ds, forms):
 
 
 KNOWN_MINUS_ONE = "multicat-int-token-minus-one-aliases-missing"
+GUARDED = ("str-without-sep", "list-with-sep", "float64-all-nan-multicat", "multicat-number-cell", "seq-string-cell",
+           "numerical-object-strings")
 
 
 def minus_one_situation(col):
@@ -594,7 +683,12 @@ def oracle(case, obs):
     if case.get("kind") == "sibling":
         return oracle_sibling(case, obs)
     if case.get("malformed"):
-        return None            # outside the quantifier: nothing is demanded (see gen_malformed)
+        # outside the quantifier: no encoding is demanded.  Where the LIBRARY has an explicit guard for the situation
+        # (assert / raise in mapper.py, stats.py), the guard must still fire; numpy's own shape errors are not demanded
+        if obs.get("ok") and case["malformed"] in GUARDED:
+            return dict(key=f"guard-not-raised:{case['malformed']}", what=f"a {case['malformed']} column materialized "
+                        f"without an error although the library guards against it")
+        return None
     if not obs["ok"]:
         sts = sorted({c["stype"] for c in case["cols"]})
         return dict(key=f"materialize-raises:{obs['exc']}", what=f"materialize raised {obs['exc']}: {obs['msg']}",
@@ -602,6 +696,8 @@ def oracle(case, obs):
     tfj = obs["tf"]
     if tfj["num_rows"] != case["n"]:
         return dict(key="num-rows", what=f"frame has {tfj['num_rows']} rows, DataFrame has {case['n']}")
+    if obs.get("aliasing"):
+        return dict(key="aliases-dataframe", what="; ".join(obs["aliasing"]))
     if "reloaded" in obs and G_canon(obs["reloaded"]) != G_canon(tfj):
         return dict(key="cache-reload", what="materialize(path=) of a second dataset loaded a different TensorFrame than "
                     "the one the first dataset materialized and saved")
@@ -764,6 +860,8 @@ def stats(cases, obss):
                     b["tied-categories/" + c["index"]] = b.get("tied-categories/" + c["index"], 0) + 1
             if c["index"] == "dup" and c["n"] >= 2 and any(v is None for v in col["cells"]):
                 b["dup-labels-with-missing-cells"] = b.get("dup-labels-with-missing-cells", 0) + 1
+        if (o or {}).get("aliasing") is not None:
+            d["aliasing_probes"] = d.get("aliasing_probes", 0) + 1
         if (o or {}).get("direct"):
             d["direct_mapper_calls"] = d.get("direct_mapper_calls", 0) + len(o["direct"])
         if "reloaded" in (o or {}):
@@ -775,6 +873,8 @@ def stats(cases, obss):
             if embs and kids and max(embs) > min(kids):
                 d["family_embedding_after_child"] = d.get("family_embedding_after_child", 0) + 1
         if c.get("malformed"):
+            d.setdefault("malformed_kinds", {})
+            d["malformed_kinds"][c["malformed"]] = d["malformed_kinds"].get(c["malformed"], 0) + 1
             d["malformed"] = d.get("malformed", 0) + 1
             d["malformed_raised"] = d.get("malformed_raised", 0) + (0 if o.get("ok") else 1)
         d["index"][c["index"]] = d["index"].get(c["index"], 0) + 1
@@ -835,8 +935,9 @@ def coq_term(case, obs):
         return f"(let idx := {M.plist(lab, M.ppval)} in " + " && ".join(parts) + ")"
     if case.get("malformed") and not obs.get("ok"):
         bad = case["cols"][1]
-        if case["malformed"] == "missing-embedding-cell":
-            return None     # not expressible in the model: an embedding cell is a vector by type
+        if case["malformed"] in ("missing-embedding-cell", "multicat-number-cell", "seq-string-cell",
+                                 "numerical-object-strings"):
+            return None     # not expressible through the printer (MCOther / SQOther / a vector by type)
         return f"col_raises pval_eqb {M.labels_of(case)} ({M.rawcol(bad, {'MULTI_COUNT': [[], []]})})"
     if case.get("malformed") or not obs.get("ok"):
         return None     # an implementation that tolerates a malformed column is not compared (outside the property)
@@ -907,6 +1008,9 @@ def sanity(cases, obss):
               "family", "family_embedding_after_child", "unlabeled_target_frames", "datetime64_with_configured_format"):
         if d.get(k, 0) == 0:
             probs.append(f"{k} never drawn")
+    for k in GUARDED + ("ragged-embedding", "missing-embedding-cell"):
+        if d.get("malformed_kinds", {}).get(k, 0) == 0:
+            probs.append(f"malformed kind {k} never drawn")
     for r in LARGE_ROWS:
         if d.get("large_rows", {}).get(str(r), 0) == 0:
             probs.append(f"no frame with {r} rows")
@@ -914,9 +1018,10 @@ def sanity(cases, obss):
                "dup-labels-with-missing-cells"] + ["tied-categories/" + i for i in ("range", "offset", "perm", "string", "dup")]):
         if d.get("boundaries", {}).get(k, 0) == 0:
             probs.append(f"boundary {k} never drawn")
-    for k in M.missing_forms(d, extra=["cfg=single", "cfg=dict"]):
+    for k in M.missing_forms(d, extra=["cfg=single", "cfg=dict"] + M.REQUIRED_BACKINGS +
+                             ["layout=" + x for x in M.RESTRIDES + ["plain"]]):
         probs.append(f"signature form {k} never drawn")
-    for k in ("direct_mapper_calls", "cache_reloads"):
+    for k in ("direct_mapper_calls", "cache_reloads", "aliasing_probes"):
         if d.get(k, 0) == 0:
             probs.append(f"{k} never drawn")
     if d["cells"] and not (0.05 < d["missing_cells"] / d["cells"] < 0.6):
